@@ -2,6 +2,7 @@ package scen
 
 import (
 	"bytes"
+	"context"
 	"compress/gzip"
 	"encoding/base64"
 	"encoding/json"
@@ -45,7 +46,9 @@ type Step struct {
 	// environment steps
 	Edit    *EditStep `json:"edit,omitempty"`
 	OobDel  string    `json:"oobdel,omitempty"`
+	OobNew  *PreObj   `json:"oobnew,omitempty"` // somebody else creates an object
 	OobKeep string    `json:"oobkeep,omitempty"`
+	OobUnkeep string  `json:"oobunkeep,omitempty"`
 }
 
 type EditStep struct {
@@ -311,7 +314,11 @@ func (e *Env) findObj(name string) (simcluster.Key, bool) {
 func (e *Env) applyEnvStep(i int, s Step) {
 	switch {
 	case s.Edit != nil:
-		if k, ok := e.findObj(s.Edit.Res); ok {
+		k, ok := e.findObj(s.Edit.Res)
+		if !ok {
+			return // nothing to edit (e.g. the create was the call the fault plan hit): no event
+		}
+		if ok {
 			e.Sim.Mutate(k, func(o map[string]interface{}) {
 				kind := str(o["kind"])
 				fp := append(fieldPath(kind), s.Edit.Field)
@@ -332,12 +339,36 @@ func (e *Env) applyEnvStep(i int, s Step) {
 			})
 		}
 		e.Rec.Log(Event{Step: i, Ev: "edit", Kind: "edit", ID: s.Edit.Res, Verb: s.Edit.Field + "=" + s.Edit.Value, Field: s.Edit.Field, Value: s.Edit.Value, OK: true})
-	case s.OobDel != "":
-		if k, ok := e.findObj(s.OobDel); ok {
-			e.Sim.Remove(k)
+	case s.OobNew != nil:
+		if _, ok := e.findObj(s.OobNew.Res); ok {
+			return
 		}
+		e.putPre(*s.OobNew)
+		e.Rec.Log(Event{Step: i, Ev: "edit", Kind: "oobnew", ID: s.OobNew.Res, Field: "", Value: s.OobNew.Own, OK: true})
+	case s.OobDel != "":
+		k, ok := e.findObj(s.OobDel)
+		if !ok {
+			return
+		}
+		e.Sim.Remove(k)
 		e.Rec.Log(Event{Step: i, Ev: "edit", Kind: "oobdel", ID: s.OobDel, OK: true})
+	case s.OobUnkeep != "":
+		if _, ok := e.findObj(s.OobUnkeep); !ok {
+			return
+		}
+		if k, ok := e.findObj(s.OobUnkeep); ok {
+			e.Sim.Mutate(k, func(o map[string]interface{}) {
+				md, _ := o["metadata"].(map[string]interface{})
+				if ann, _ := md["annotations"].(map[string]interface{}); ann != nil {
+					delete(ann, "helm.sh/resource-policy")
+				}
+			})
+		}
+		e.Rec.Log(Event{Step: i, Ev: "edit", Kind: "oobunkeep", ID: s.OobUnkeep, OK: true})
 	case s.OobKeep != "":
+		if _, ok := e.findObj(s.OobKeep); !ok {
+			return
+		}
 		if k, ok := e.findObj(s.OobKeep); ok {
 			e.Sim.Mutate(k, func(o map[string]interface{}) {
 				md, _ := o["metadata"].(map[string]interface{})
@@ -427,7 +458,7 @@ func (e *Env) RunOp(proc, i int, s Step) (res OpResult) {
 		in.Force = flagB(f, "force")
 		in.Timeout = timeout
 		in.WaitStrategy = kube.StatusWatcherStrategy // the scenarios are "helm ... --wait"
-		rel, err := in.Run(ch, parseVals(s.Vals))
+		rel, err := in.RunWithContext(opCtx(f), ch, parseVals(s.Vals))
 		res.Rel = rel
 		if err != nil {
 			res.Err = err.Error()
@@ -455,7 +486,7 @@ func (e *Env) RunOp(proc, i int, s Step) (res OpResult) {
 		up.Force = flagB(f, "force")
 		up.Timeout = timeout
 		up.WaitStrategy = kube.StatusWatcherStrategy
-		rel, err := up.Run(RelName, ch, parseVals(s.Vals))
+		rel, err := up.RunWithContext(opCtx(f), RelName, ch, parseVals(s.Vals))
 		res.Rel = rel
 		if err != nil {
 			res.Err = err.Error()
@@ -492,6 +523,17 @@ func (e *Env) RunOp(proc, i int, s Step) (res OpResult) {
 		res.Err = "unknown op " + s.Op
 	}
 	return res
+}
+
+// opCtx: a dry run started after the user already hit ctrl-C (context cancelled) must still be a dry run.
+// Only dry runs get a cancelled context: for real runs cancellation races with the operation itself.
+func opCtx(f map[string]any) context.Context {
+	if flagB(f, "cancelled") && (flagB(f, "dryRun") || flagS(f, "dryRunOption") != "") {
+		ctx, cancel := context.WithCancel(context.Background())
+		cancel()
+		return ctx
+	}
+	return context.Background()
 }
 
 // labelPostRenderer stands for "a post-renderer is configured": it passes the manifest through
